@@ -15,7 +15,7 @@
       }
       return s, prevInflow, prevOutflow
 
-    Parameter order (generated wrapper): K, X, DeltaT.  States: S, prevInflow,
+    Order of the parameters (generated wrapper): K, X, DeltaT.  States: S, prevInflow,
     prevOutflow.  Inputs: inflow, lateral.  Output: outflow. *)
 From Coq Require Import ZArith List Bool.
 From OW Require Import Base.Arith Base.Mealy.
@@ -49,11 +49,12 @@ Section K.
     run (musk_step w) s xs.
 
   (** the kernel as the generated wrapper sees it ([None]: the wrapper indexes
-      a missing parameter / state / input and panics) *)
+      a missing entry of the parameter, state or input vectors and panics; surplus
+      parameters and input series are ignored, surplus states are left untouched) *)
   Definition muskingum_kernel (params : list T) (states : list T) (inputs : list (list T))
     : option (list (list T) * list T) :=
     match params, states, inputs with
-    | [k; x; dt], s :: prev_in :: prev_out :: rest, [inflows; laterals] =>
+    | k :: x :: dt :: _, s :: prev_in :: prev_out :: rest, inflows :: laterals :: _ =>
         let w := musk_setup k x dt in
         let '((pin, pout), outs) := musk_run w (prev_in, prev_out) (combine inflows laterals) in
         Some ([outs], s :: pin :: pout :: rest)
